@@ -28,7 +28,7 @@ func opDurM(r *hx.Run, d int64) []byte {
 	// the statement: text round trip of every value
 	var back claircore.Duration = 12345
 	if err := back.UnmarshalText(text); err != nil || back != x {
-		r.Fail("", fmt.Sprintf("Duration %d marshals to %q which decodes to %d (err=%v)", d, text, int64(back), err))
+		failW(r, "", fmt.Sprintf("Duration %d marshals to %q which decodes to %d (err=%v)", d, text, int64(back), err))
 	}
 	return text
 }
@@ -39,14 +39,14 @@ func opDurUn(r *hx.Run, old int64, t []byte) {
 		buf := append([]byte(nil), t...)
 		if err := x.UnmarshalText(buf); err != nil {
 			if int64(x) != old {
-				r.Fail("", fmt.Sprintf("Duration.UnmarshalText(%q) failed and changed its receiver from %d to %d", t, old, int64(x)))
+				failW(r, "", fmt.Sprintf("Duration.UnmarshalText(%q) failed and changed its receiver from %d to %d", t, old, int64(x)))
 			}
 			return "err " + strconv.FormatInt(int64(x), 10)
 		}
 		return "ok " + strconv.FormatInt(int64(x), 10)
 	})
 	if out == "panic" {
-		r.Fail("", "Duration.UnmarshalText panics on hex:"+hx.Hex(t))
+		failW(r, "", "Duration.UnmarshalText panics on hex:"+hx.Hex(t))
 	}
 	r.Op("dur-un "+strconv.FormatInt(old, 10)+" "+hx.Hex(t), out, true)
 	r.Count("dur-un:" + out[:2])
